@@ -70,6 +70,18 @@ def boundary_accounts(m: str, rng: random.Random) -> list[str]:
         out += ["%d%s9%s" % (rng.randrange(1, 10), f"{rng.randrange(100):02d}", f"{rng.randrange(10**6):06d}")
                 for _ in range(60)]
         out += [f"{rng.randrange(10**5, 10**9):010d}" for _ in range(60)]
+    if m in ("16", "23"):
+        # remainder 1 (no check digit exists): valid iff the check digit repeats the digit before it
+        body, cd = (9, 10) if m == "16" else (6, 7)
+        found = 0
+        while found < 12:
+            d = [rng.randrange(10) for _ in range(10)]
+            w = [2, 3, 4, 5, 6, 7]
+            if sum(d[body - 1 - i] * w[i % 6] for i in range(body)) % 11 == 1:
+                found += 1
+                for last in (d[cd - 2], (d[cd - 2] + 1) % 10):
+                    d[cd - 1] = last
+                    out.append("".join(map(str, d)))
     if m in ("24", "76", "63", "26", "61", "88", "25"):
         for lead in "0123456789":
             for _ in range(12):
